@@ -1,5 +1,5 @@
 """C14 - downstream termination cancels upstream without waiting for it (DESIGN 6/C14)."""
-import vlib, parts_pipeline as pp, common
+import vlib, parts_multi, parts_pipeline as pp, common
 
 PID = 'C14'
 
@@ -8,6 +8,9 @@ def main(argv):
     rep = vlib.Report(PID, 'model_checking', argv)
     vlib.build_harness()
     pp.run(rep, PID, common.pipeline_cfgs(rep, 'cuts'), modes='ctl-unsafe,ctl-safe')
+    # multi-source operators: external cut at every position; a source that ends synchronously inside its own subscription (also with a
+    # panicking teardown) must not make the operator lose the subscriptions it already holds
+    parts_multi.run(rep, PID, rep.tier == 'thorough')
     rep.cov['rule'] = common.PIPE_RULE + '; C14 looks at the source teardown counter in the very step in which an operator terminated the stream on a value (no further source event)'
     rep.cov['exhaustive'] = True
     rep.assumptions += ['bounded: scripts <= 3-4 notifications; chains <= 2 operators']
@@ -16,4 +19,7 @@ def main(argv):
 
 def replay(path):
     vlib.build_harness()
+    import json
+    if json.load(open(path))['replay'].get('module') == 'MultiGen':
+        return parts_multi.replay_case(PID, path)
     return pp.replay_case(PID, path)
